@@ -15,8 +15,8 @@ import (
 
 func init() {
 	fw.Register(&fw.Check{
-		ID: "C04",
-		Rule: "cases: (a) keys of all five types (with and without nonce, coordinates with leading zero bytes when found) x codes 18/19: reveal, commitment and commitment-from-reveal compared with the reference formulas, every unsupported code must error, every single-member perturbation of the JWK must change the commitment; (b) generated well-formed chains create -> (update|recover)* -> deactivate (length 2..8): for every non-create operation the commitment derived from the parser-reported reveal value must equal the commitment reported for (or, for create/recover->update links, committed by) its predecessor on the same chain; deactivate reports no commitment. distinct = distinct (key type, code, nonce, perturbed member) and distinct chain type sequences.",
+		ID:          "C04",
+		Rule:        "cases: (a) keys of all five types (with and without nonce, coordinates with leading zero bytes when found) x codes 18/19: reveal, commitment and commitment-from-reveal compared with the reference formulas, every unsupported code must error, every single-member perturbation of the JWK must change the commitment; (b) generated well-formed chains create -> (update|recover)* -> deactivate (length 2..8): for every non-create operation the commitment derived from the parser-reported reveal value must equal the commitment reported for (or, for create/recover->update links, committed by) its predecessor on the same chain; deactivate reports no commitment. distinct = distinct (key type, code, nonce, perturbed member) and distinct chain type sequences.",
 		Assumptions: []string{"harness JCS / multihash oracle", "crypto/sha256, crypto/sha512"},
 		Require:     []string{"keys", "perturbations", "chain-links", "deactivate-no-commitment"},
 		Run:         runC04,
